@@ -7,31 +7,42 @@ from props import solver_common as sc
 ID = 'C17'
 PROPS_FILE = 'Props/C17.v'
 MODEL_FILES = ['Solver/Solver.v', 'Solver/SolverF.v', 'Solver/SolveAll.v', 'Tracer/Tracer.v', 'Tracer/TracerSolve.v', 'Tracer/TracerNames.v', 'Tracer/TracerLinked.v', 'Tracer/TracerF.v']
-K_NAME = ('K_tracer (Tracer.traced_solve_t, TracerSolve.traced_solve_period_all / traced_solve_all — solve() from its start= / end= LABELS: '
-          'validation, iter_periods defaults from lags / leads, list.index lookup — and their untraced twins Solver.solve_t_M, '
-          'SolveAll.solve_period_M / solve_M, instantiated with PrimFloat, vs TracerMixin over scripted and parser-built models: state, '
-          'every Trace object (names, labels, values), result lists / exception class + cause after every call of a call sequence)')
-RULE = ('scripted models (1-4 variables, 1-5 periods) run as a sequence of 1-4 calls on ONE traced instance and on an untraced twin: '
+K_NAME = ('K_tracer: (1) Tracer.traced_solve_t, TracerSolve.traced_solve_period_all / traced_solve_all (solve() from its start= / end= LABELS), '
+          'the public snapshot methods trace_t / trace_period called directly, and Trace.to_dataframe of every period, with their untraced twins '
+          'Solver.solve_t_M, SolveAll.solve_period_M / solve_M, instantiated with PrimFloat, vs TracerMixin over scripted and parser-built models: '
+          'state, every Trace object (names, labels, values), its data frame, result lists / exception class + cause after every call of a call '
+          'sequence; (2) TracerNames.trace_names (heap model of WHICH list object a new Trace keeps) vs the observed identities (is Trace.names the '
+          'model\'s list / TRACE_VARIABLES / the caller\'s object); (3) TracerSolve.tracer_init vs TracerMixin.__init__ (DuplicateNameError, index, '
+          'empty Traces); (4) TracerLinked.linked_passes / plain_passes vs traced scripted submodels inside a BaseLinker and an untraced twin linker')
+RULE = ('scripted models (1-4 variables, 1-5 periods) run as a sequence of 1-5 calls on ONE traced instance and on an untraced twin: '
         'structured lattice entry point {solve_t, solve_period, solve} x trace in {omitted, None, False, True, one name, list / tuple of '
-        'names, [], \'\'} x reset in {omitted, False, True} x C02/C06 scenarios (convergence at k=1..3, min_iter/max_iter boundaries, '
-        'max_iter=0, min_iter>max_iter, non-convergence under failures=raise/ignore, NaN/inf at a pass under raise/skip/ignore/replace/'
+        'names, [], \'\', a generator, a set} x reset in {omitted, False, True} x C02/C06 scenarios (convergence at k=1..3, min_iter/max_iter '
+        'boundaries, max_iter=0, min_iter>max_iter, non-convergence under failures=raise/ignore, NaN/inf at a pass under raise/skip/ignore/replace/'
         'invalid, warnings with and without catch_first_error, exceptions in _evaluate / pre-hook / post-hook, pre-existing NaN, offsets in '
         'and out of the span, infeasible periods (lags/leads), hooks that write), then random call sequences incl. repeated solves of one '
-        'period (same names, other names of the same width, another width = finding #16, reset=True, tracing switched off in between), '
-        'TRACE_VARIABLES None / subset / empty, unknown names, t outside the span, solve() with unknown start / end labels, start > end, lags / '
-        'leads up to and beyond the span length with default start / end; finally parser-built (C01-grammar) models — 12 scripts with '
-        'lags (1, 2), leads (1, 2), parameters, 1/X, log, exp, sqrt, max (contractive, divergent, faulting) — whose generated _evaluate is the inner oracle: the '
-        'columns it leaves after every pass (recorded on the untraced twin) become the action script of the Coq model for that run. '
-        'Non-trivial = some call ran >= 2 evaluation passes or ended in an exception; distinct by hash of the whole case.')
+        'period (same names, other names of the same width = stale-names finding, another width = finding #16, reset=True, tracing switched off '
+        'in between), direct trace_t / trace_period calls (any label, trace None / False / [] / \'\' / unknown names, t or label outside the span) '
+        'before, between and after solves, TRACE_VARIABLES None / subset / empty, unknown names, t outside the span, solve() with unknown start / end '
+        'labels, start > end, lags / leads up to and beyond the span length with default start / end; after the last call the model gets a new '
+        'variable and every list passed as trace= and the class\'s TRACE_VARIABLES are edited (no Trace may move); TracerMixin.__init__ over '
+        'TRACE_NAME in {free names, every variable, status, iterations} x 0-3 variables x 0-3 periods (exhaustive); linkers over 1-3 traced scripted '
+        'submodels solved once or twice with trace= / reset= (labels = pass numbers, twin linker without the keywords); finally parser-built '
+        '(C01-grammar) models — 12 scripts with lags (1, 2), leads (1, 2), parameters, 1/X, log, exp, sqrt, max (contractive, divergent, faulting), '
+        'multi-character names — whose generated _evaluate is the inner oracle: the columns it leaves after every pass (recorded on the untraced '
+        'twin) become the action script of the Coq model for that run. Non-trivial = some call ran >= 2 evaluation passes or ended in an '
+        'exception; distinct by hash of the whole case.')
 TRUSTED = ['scripted-model subclasses harness/scripted.py + harness/scripted_tracer.py (the same scripts are the Coq oracles; the Recorder layer '
            'between the mixin and the scripted hooks gives the oracle its own record of the store after every pass)',
            'Solver/Solver.v and Solver/SolveAll.v (models of BaseModel.solve_t and SolverMixin.solve / iter_periods / solve_period owned by the C02-C06 '
-           'checks) are the untraced side of the theorems; K_tracer runs them too, against the untraced twin of every call']
+           'checks) are the untraced side of the theorems; K_tracer runs them too, against the untraced twin of every call',
+           'the linker loop itself (convergence, statuses: property C08) is not re-modelled here: the number of passes a linker made of a submodel is '
+           'read from the run, what each pass does to the submodel and its Trace is the model\'s']
 ASSUMPTIONS = ['the user\'s _evaluate / solve_t_before / solve_t_after modify variable values only: they do not add, remove or resize series, '
                'do not touch the `trace` entry and do not look at the trace= / reset= keywords they are handed (shape of the model\'s inner oracles)',
                'names in trace= / TRACE_VARIABLES are model variables or unknown strings (not `status`, `iterations` or the trace entry itself)',
                't lies inside the span for the twin comparison (outside it trace_t\'s IndexError precedes every check of the base class)',
-               'span = list of int labels (list.index lookup); start/end of solve() are labels of the span']
+               'span = list of int labels (list.index lookup); start/end of solve() are labels of the span',
+               'reference semantics of Python lists as in TracerNames.v: list(x) allocates a new object, in-place edits change exactly the object edited']
 EXHAUSTIVE = {'quick': False, 'thorough': False}
 CASE_TIMEOUT = 30
 
@@ -556,6 +567,14 @@ def c_trace(t):
                                    lib.clist(lib.clist(lib.cfloat(x) for x in col) for col in t['values']))
 
 
+def c_fobs(f, t):
+    """FSame when the observed frame is literally the labels x names table of the observed Trace (the model then only has to
+    agree that to_dataframe succeeds on ITS Trace, which is compared with the observed one anyway); explicit otherwise."""
+    if f[0] == 'df' and f[1] == t['index'] and f[3] == t['values'] and (f[2] == t['names'] or not t['values']):
+        return 'FSame'
+    return '(FExplicit %s)' % c_frame(f)
+
+
 def c_res(call, out):
     import scripted
     if call['entry'] in DIRECT:
@@ -579,7 +598,7 @@ def c_case17(case, obs):
         xs.append('(mkX %s %s %s %s %s %s)' % (sc.c_state(s['vals'], s['status'], s['iters'], s['log']),
                                               lib.clist(c_trace(t) for t in s['traces']), c_res(call, s['out']),
                                               sc.c_state(tw['vals'], tw['status'], tw['iters'], tw['log']), c_res(call, tw['out']),
-                                              lib.clist(c_frame(f) for f in s['frames'])))
+                                              lib.clist(c_fobs(f, t) for f, t in zip(s['frames'], s['traces']))))
     return '(mkCase17 %s %s %s %s %s %s %s)' % (
         sc.c_scripts(case['scripts']), cfg, span, sc.c_desc(case),
         sc.c_state(case['vals'], case['status'], case['iters'], []),
